@@ -54,7 +54,10 @@ def mimic_function[**Args, Result](
             except AttributeError:
                 pass
         try:
-            target.__dict__.update(function.__dict__)
+            # keep attributes of the wrapper itself - wrappers implemented as objects hold
+            # their own state there and the wrapped function may be such a wrapper as well
+            for key, value in function.__dict__.items():
+                target.__dict__.setdefault(key, value)
 
         except AttributeError:
             pass
